@@ -255,8 +255,45 @@ def emit(rows):
     return s
 
 
+CANON = 'c02_canon_gvn.json'
+
+
+def canonicalise(rows, canon):
+    """a fold row that is not literally the canonical one (corpus/c02_canon_gvn.json) but equal to it for all operand
+    values, with an equal guard (SMT, see tools/tr_c02_smt.py), is replaced by the canonical row"""
+    import tr_c02_smt as SMT
+    out, notes, hints = [], [], []
+    for o, g, st in rows:
+        c = canon.get(o)
+        if c is not None and (g, st) != (c[0], c[1]) and st[0] in ('SAssign', 'SBranch'):
+            cg, cst = c
+            ok = (g is None) == (cg is None)
+            if ok and g is not None and g != cg:
+                ok = SMT.equivalent(('SBranch', g), ('SBranch', cg))[0] == 'equiv'
+            if ok:
+                r, info = SMT.equivalent(st, cst)
+                if r == 'equiv':
+                    out.append((o, cg, cst))
+                    notes.append('GVN fold of ' + o)
+                    continue
+                if r == 'different' and info:
+                    hints.append(dict(op=o, args=[info.get(1, 0), info.get(2, 0)]))
+        out.append((o, g, st))
+    return out, notes, hints
+
+
 def main():
+    import tr_c02_smt as SMT
+    import json
     rows = translate(vlib.REPO)
+    if '--snapshot' in sys.argv:
+        p = os.path.join(vlib.VERIF, 'corpus', CANON)
+        json.dump({o: [g, st] for o, g, st in rows if st[0] != 'SUnknown'}, open(p, 'w'), indent=0)
+        print('wrote', p)
+        return
+    rows, notes, hints = canonicalise(rows, SMT.load_canon(CANON))
+    SMT.write_notes('gvn', notes)
+    SMT.write_hints('gvn', hints)
     out = os.path.join(vlib.COQDIR, 'gen', 'GvnFoldTable.v')
     os.makedirs(os.path.dirname(out), exist_ok=True)
     txt = emit(rows)
@@ -265,7 +302,8 @@ def main():
         open(out + '.tmp%d' % os.getpid(), 'w').write(txt)
         os.rename(out + '.tmp%d' % os.getpid(), out)
     unk = [o for o, g, st in rows if st[0] == 'SUnknown']
-    print('GvnFoldTable: %d rows, %d unknown%s' % (len(rows), len(unk), (': ' + ' '.join(unk[:8])) if unk else ''))
+    print('GvnFoldTable: %d rows, %d unknown%s%s' % (len(rows), len(unk), (': ' + ' '.join(unk[:8])) if unk else '',
+                                                     ('; tied by SMT equivalence with the canonical row: ' + '; '.join(notes)) if notes else ''))
 
 
 if __name__ == '__main__':
